@@ -15,7 +15,7 @@ local notation "R" => respell f
 theorem loopBound_respell (ks : List Node) : loopBound (ks.map (respell f)) = loopBound ks := by simp [loopBound]
 
 /-! ### group_identifier -/
-theorem identifierLoop_respell (ha : Admissible upper f) (n : Nat) (ks : List Node) (pend : Option (Nat × Node)) :
+theorem identifierLoop_respell (ha : AdmissibleNames upper f) (n : Nat) (ks : List Node) (pend : Option (Nat × Node)) :
     identifierLoop upper n (ks.map (respell f)) (pend.map (rp f)) =
       (identifierLoop upper n ks pend).map (List.map (respell f)) := by
   induction n generalizing ks pend with
@@ -33,13 +33,13 @@ theorem identifierLoop_respell (ha : Admissible upper f) (n : Nat) (ks : List No
         simp only [Except.map_ok', tokenNextBy_respell ha ks' [] [] _ rfl]
         exact ih ks' _
 
-theorem groupIdentifierBody_respell (ha : Admissible upper f) : KidsComm f (groupIdentifierBody upper) := by
+theorem groupIdentifierBody_respell (ha : AdmissibleNames upper f) : KidsComm f (groupIdentifierBody upper) := by
   intro c ks
   simp only [groupIdentifierBody, loopBound_respell, tokenNextBy_respell ha ks [] [] _ rfl]
   exact identifierLoop_respell ha _ ks _
 
 /-! ### group_over -/
-theorem overLoop_respell (ha : Admissible upper f) (n : Nat) (ks : List Node) (pend : Option (Nat × Node)) :
+theorem overLoop_respell (ha : AdmissibleNames upper f) (n : Nat) (ks : List Node) (pend : Option (Nat × Node)) :
     overLoop upper n (ks.map (respell f)) (pend.map (rp f)) =
       (overLoop upper n ks pend).map (List.map (respell f)) := by
   induction n generalizing ks pend with
@@ -68,14 +68,14 @@ theorem overLoop_respell (ha : Admissible upper f) (n : Nat) (ks : List Node) (p
         · simp only [hi, tokenNextBy_respell ha ks [] Gen.group_over_token_next_by1_m .none (by decide)]
           exact ih ks _
 
-theorem groupOverBody_respell (ha : Admissible upper f) : KidsComm f (groupOverBody upper) := by
+theorem groupOverBody_respell (ha : AdmissibleNames upper f) : KidsComm f (groupOverBody upper) := by
   intro c ks
   simp only [groupOverBody, loopBound_respell,
     tokenNextBy_respell ha ks [] Gen.group_over_token_next_by0_m .none (by decide)]
   exact overLoop_respell ha _ ks _
 
 /-! ### group_comments -/
-theorem commentsLoop_respell (ha : Admissible upper f) (n : Nat) (ks : List Node) (pend : Option (Nat × Node)) :
+theorem commentsLoop_respell (ha : AdmissibleNames upper f) (n : Nat) (ks : List Node) (pend : Option (Nat × Node)) :
     commentsLoop upper n (ks.map (respell f)) (pend.map (rp f)) =
       (commentsLoop upper n ks pend).map (List.map (respell f)) := by
   induction n generalizing ks pend with
@@ -107,7 +107,7 @@ theorem commentsLoop_respell (ha : Admissible upper f) (n : Nat) (ks : List Node
             simp only [Except.map_ok', tokenNextBy_respell ha ks' [] [] _ rfl]
             exact ih ks' _
 
-theorem groupCommentsBody_respell (ha : Admissible upper f) : KidsComm f (groupCommentsBody upper) := by
+theorem groupCommentsBody_respell (ha : AdmissibleNames upper f) : KidsComm f (groupCommentsBody upper) := by
   intro c ks
   simp only [groupCommentsBody, loopBound_respell, tokenNextBy_respell ha ks [] [] _ rfl]
   exact commentsLoop_respell ha _ ks _
@@ -116,7 +116,7 @@ theorem groupCommentsBody_respell (ha : Admissible upper f) : KidsComm f (groupC
 theorem groupableLastIdx_respell (c : Cls) (ks : List Node) :
     groupableLastIdx c (ks.map (respell f)) = groupableLastIdx c ks := by simp [groupableLastIdx]
 
-theorem whereEnd_respell (ha : Admissible upper f) (c : Cls) (ks : List Node) (tidx : Nat) :
+theorem whereEnd_respell (ha : AdmissibleNames upper f) (c : Cls) (ks : List Node) (tidx : Nat) :
     whereEnd upper c (ks.map (respell f)) tidx = whereEnd upper c ks tidx := by
   simp only [whereEnd, tokenNextBy_respell ha ks [] Gen.group_where_token_next_by1_m .none (by decide),
     groupableLastIdx_respell, List.length_map]
@@ -124,7 +124,7 @@ theorem whereEnd_respell (ha : Admissible upper f) (c : Cls) (ks : List Node) (t
   | none => rfl
   | some q => rfl
 
-theorem whereLoop_respell (ha : Admissible upper f) (c : Cls) (n : Nat) (ks : List Node)
+theorem whereLoop_respell (ha : AdmissibleNames upper f) (c : Cls) (n : Nat) (ks : List Node)
     (pend : Option (Nat × Node)) :
     whereLoop upper c n (ks.map (respell f)) (pend.map (rp f)) =
       (whereLoop upper c n ks pend).map (List.map (respell f)) := by
@@ -147,14 +147,14 @@ theorem whereLoop_respell (ha : Admissible upper f) (c : Cls) (n : Nat) (ks : Li
             tokenNextBy_respell ha ks' [] Gen.group_where_token_next_by2_m .none (by decide)]
           exact ih ks' _
 
-theorem groupWhereBody_respell (ha : Admissible upper f) : KidsComm f (groupWhereBody upper) := by
+theorem groupWhereBody_respell (ha : AdmissibleNames upper f) : KidsComm f (groupWhereBody upper) := by
   intro c ks
   simp only [groupWhereBody, loopBound_respell,
     tokenNextBy_respell ha ks [] Gen.group_where_token_next_by0_m .none (by decide)]
   exact whereLoop_respell ha c _ ks _
 
 /-! ### group_aliased -/
-theorem aliasedLoop_respell (ha : Admissible upper f) (n : Nat) (ks : List Node) (pend : Option (Nat × Node)) :
+theorem aliasedLoop_respell (ha : AdmissibleNames upper f) (n : Nat) (ks : List Node) (pend : Option (Nat × Node)) :
     aliasedLoop upper n (ks.map (respell f)) (pend.map (rp f)) =
       (aliasedLoop upper n ks pend).map (List.map (respell f)) := by
   induction n generalizing ks pend with
@@ -183,13 +183,13 @@ theorem aliasedLoop_respell (ha : Admissible upper f) (n : Nat) (ks : List Node)
         · simp only [hi, tokenNextBy_respell ha ks Gen.group_aliased_I_ALIAS [] _ rfl]
           exact ih ks _
 
-theorem groupAliasedBody_respell (ha : Admissible upper f) : KidsComm f (groupAliasedBody upper) := by
+theorem groupAliasedBody_respell (ha : AdmissibleNames upper f) : KidsComm f (groupAliasedBody upper) := by
   intro c ks
   simp only [groupAliasedBody, loopBound_respell, tokenNextBy_respell ha ks Gen.group_aliased_I_ALIAS [] _ rfl]
   exact aliasedLoop_respell ha _ ks _
 
 /-! ### group_functions -/
-theorem functionsSkip_respell (ha : Admissible upper f) (ks : List Node) :
+theorem functionsSkip_respell (ha : AdmissibleNames upper f) (ks : List Node) :
     functionsSkip upper (ks.map (respell f)) = functionsSkip upper ks := by
   have h : ∀ w ∈ skipWords, (ks.map (respell f)).any (fun k => upper k.value == w) =
       ks.any (fun k => upper k.value == w) := by
@@ -201,7 +201,7 @@ theorem functionsSkip_respell (ha : Admissible upper f) (ks : List Node) :
   simp only [functionsSkip, h _ (by simp [skipWords] : txt "CREATE" ∈ skipWords),
     h _ (by simp [skipWords] : txt "TABLE" ∈ skipWords), h _ (by simp [skipWords] : txt "AS" ∈ skipWords)]
 
-theorem functionsLoop_respell (ha : Admissible upper f) (n : Nat) (ks : List Node) (pend : Option (Nat × Node)) :
+theorem functionsLoop_respell (ha : AdmissibleNames upper f) (n : Nat) (ks : List Node) (pend : Option (Nat × Node)) :
     functionsLoop upper n (ks.map (respell f)) (pend.map (rp f)) =
       (functionsLoop upper n ks pend).map (List.map (respell f)) := by
   induction n generalizing ks pend with
@@ -249,7 +249,7 @@ theorem functionsLoop_respell (ha : Admissible upper f) (n : Nat) (ks : List Nod
         · simp only [hi, tokenNextBy_respell ha ks [] [] _ rfl]
           exact ih ks _
 
-theorem groupFunctionsBody_respell (ha : Admissible upper f) : KidsComm f (groupFunctionsBody upper) := by
+theorem groupFunctionsBody_respell (ha : AdmissibleNames upper f) : KidsComm f (groupFunctionsBody upper) := by
   intro c ks
   simp only [groupFunctionsBody, functionsSkip_respell ha, loopBound_respell, tokenNextBy_respell ha ks [] [] _ rfl]
   split
@@ -257,7 +257,7 @@ theorem groupFunctionsBody_respell (ha : Admissible upper f) : KidsComm f (group
   · exact functionsLoop_respell ha _ ks _
 
 /-! ### group_order -/
-theorem orderLoop_respell (ha : Admissible upper f) (n : Nat) (ks : List Node) (pend : Option (Nat × Node)) :
+theorem orderLoop_respell (ha : AdmissibleNames upper f) (n : Nat) (ks : List Node) (pend : Option (Nat × Node)) :
     orderLoop upper n (ks.map (respell f)) (pend.map (rp f)) =
       (orderLoop upper n ks pend).map (List.map (respell f)) := by
   induction n generalizing ks pend with
@@ -285,13 +285,13 @@ theorem orderLoop_respell (ha : Admissible upper f) (n : Nat) (ks : List Node) (
         · simp only [hi, tokenNextBy_respell ha ks [] [] _ rfl]
           exact ih ks _
 
-theorem groupOrderBody_respell (ha : Admissible upper f) : KidsComm f (groupOrderBody upper) := by
+theorem groupOrderBody_respell (ha : AdmissibleNames upper f) : KidsComm f (groupOrderBody upper) := by
   intro c ks
   simp only [groupOrderBody, loopBound_respell, tokenNextBy_respell ha ks [] [] _ rfl]
   exact orderLoop_respell ha _ ks _
 
 /-! ### align_comments -/
-theorem alignLoop_respell (ha : Admissible upper f) (n : Nat) (ks : List Node) (pend : Option (Nat × Node)) :
+theorem alignLoop_respell (ha : AdmissibleNames upper f) (n : Nat) (ks : List Node) (pend : Option (Nat × Node)) :
     alignLoop upper n (ks.map (respell f)) (pend.map (rp f)) =
       (alignLoop upper n ks pend).map (List.map (respell f)) := by
   induction n generalizing ks pend with
@@ -321,7 +321,7 @@ theorem alignLoop_respell (ha : Admissible upper f) (n : Nat) (ks : List Node) (
         · simp only [hi, tokenNextBy_respell ha ks Gen.align_comments_token_next_by1_i [] .none rfl]
           exact ih ks _
 
-theorem alignCommentsBody_respell (ha : Admissible upper f) : KidsComm f (alignCommentsBody upper) := by
+theorem alignCommentsBody_respell (ha : AdmissibleNames upper f) : KidsComm f (alignCommentsBody upper) := by
   intro c ks
   simp only [alignCommentsBody, loopBound_respell,
     tokenNextBy_respell ha ks Gen.align_comments_token_next_by0_i [] .none rfl]
@@ -340,7 +340,7 @@ theorem valuesLoop_respell (n : Nat) (ks : List Node) (pend : Option (Nat × Nod
       simp only [Option.map_some, rp, valuesLoop, tokenNext_respell, respell_isInstAny]
       exact ih _ _
 
-theorem groupValuesBody_respell (ha : Admissible upper f) : KidsComm f (groupValuesBody upper) := by
+theorem groupValuesBody_respell (ha : AdmissibleNames upper f) : KidsComm f (groupValuesBody upper) := by
   intro c ks
   simp only [groupValuesBody, tokenNextBy_respell ha ks [] Gen.group_values_token_next_by0_m .none (by decide)]
   cases tokenNextBy upper ks [] Gen.group_values_token_next_by0_m .none 0 with
